@@ -14,13 +14,27 @@
 (* faults    : a lookupd restarts empty / drops the connection / answers   *)
 (*             garbage (the command fails and the peer closes).            *)
 (*                                                                         *)
+(* half-open : a connection dies without nsqlookupd noticing (NAT, black  *)
+(*             hole): nsqd times out, reconnects and re-registers over a    *)
+(*             NEW connection while the lookupd still holds what the OLD    *)
+(*             one registered; later the lookupd reaps the old connection   *)
+(*             and drops what THAT connection registered.  KeyByIdentity =  *)
+(*             TRUE is a lookupd that files producers under the identity    *)
+(*             they advertise instead of under the connection: reaping the  *)
+(*             old connection then also drops the new one's registrations   *)
+(*             (refuted by TLC, LookupSync_keybyidentity.cfg).              *)
+(*                                                                         *)
 (* ByName = FALSE is the code as first found: lookupLoop decides REGISTER  *)
 (* or UNREGISTER from the delivered OBJECT's exiting flag.  TRUE = it      *)
 (* decides from whether the name currently exists (the repair).            *)
 (***************************************************************************)
 EXTENDS Integers, FiniteSets, TLC
 
-CONSTANTS Lookupds, MaxOps, MaxFaults, K, ByName
+CONSTANTS Lookupds, MaxOps, MaxFaults, K, ByName, KeyByIdentity,
+          SkipPingWhenBusy   \* FALSE: the code (PING every peer at every heartbeat).  TRUE: a variant that skips the PING
+                             \* for a peer that answered a REGISTER/UNREGISTER since the last heartbeat: refuted by TLC
+                             \* (nsqlookupd refreshes a producer's last-update time on PING only, and hides producers
+                             \* that have not been refreshed for inactive-producer-timeout)
 
 Topic == "t"
 Chan == "t/c"
@@ -31,13 +45,19 @@ VARIABLES objs,     \* object id -> [name, exiting]
           pending,  \* set of [obj, n]: notify goroutines not yet delivered
           conn,     \* lookupd -> "down" | "up" | "broken" (nsqd thinks up, the socket is dead)
           reg,      \* lookupd -> names registered there by this nsqd
+          stale,    \* lookupd -> names it still holds from a dead connection it has not noticed yet
+          half,     \* lookupd -> such a connection exists
+          age,      \* lookupd -> heartbeats since it last refreshed this producer (IDENTIFY or PING), capped
+          busy,     \* lookupd -> answered a REGISTER / UNREGISTER since the last heartbeat
           quiet,    \* heartbeat ticks since the last change / fault / delivery
           ops, faults, nextId
 
-vars == <<objs, cur, pending, conn, reg, quiet, ops, faults, nextId>>
+vars == <<objs, cur, pending, conn, reg, stale, half, age, busy, quiet, ops, faults, nextId>>
 
 Init == /\ objs = <<>> /\ cur = <<>> /\ pending = {} /\ nextId = 1
         /\ conn = [l \in Lookupds |-> "down"] /\ reg = [l \in Lookupds |-> {}]
+        /\ stale = [l \in Lookupds |-> {}] /\ half = [l \in Lookupds |-> FALSE]
+        /\ age = [l \in Lookupds |-> 0] /\ busy = [l \in Lookupds |-> FALSE]
         /\ quiet = 0 /\ ops = 0 /\ faults = 0
 
 \* what a lookupd should list for this nsqd: its current topics and channels
@@ -50,7 +70,7 @@ Create(nm) ==
   /\ cur' = cur @@ (nm :> nextId)
   /\ pending' = pending \cup {[obj |-> nextId, n |-> 1]}
   /\ nextId' = nextId + 1 /\ ops' = ops + 1 /\ quiet' = 0
-  /\ UNCHANGED <<conn, reg, faults>>
+  /\ UNCHANGED <<conn, reg, stale, half, age, busy, faults>>
 
 \* deleting a topic deletes its channel first (Topic.exit deletes the channels)
 Delete(nm) ==
@@ -60,7 +80,7 @@ Delete(nm) ==
   /\ pending' = pending \cup {[obj |-> cur[nm], n |-> 2]}
   /\ cur' = [x \in (DOMAIN cur) \ {nm} |-> cur[x]]
   /\ ops' = ops + 1 /\ quiet' = 0
-  /\ UNCHANGED <<conn, reg, faults, nextId>>
+  /\ UNCHANGED <<conn, reg, stale, half, age, busy, faults, nextId>>
 
 \* lookupd-side effect of one command
 Apply(set, register, nm) ==
@@ -81,16 +101,22 @@ Deliver(p) ==
        /\ conn' = [l \in Lookupds |-> res[l].conn]
        /\ reg' = [l \in Lookupds |-> res[l].reg]
   /\ pending' = pending \ {p}
+  /\ age' = [l \in Lookupds |-> IF conn[l] = "down" THEN 0 ELSE age[l]]      \* a (re)connect IDENTIFYs
+  /\ busy' = [l \in Lookupds |-> busy[l] \/ conn[l] = "up"]
   /\ quiet' = 0
-  /\ UNCHANGED <<objs, cur, ops, faults, nextId>>
+  /\ UNCHANGED <<objs, cur, stale, half, ops, faults, nextId>>
 
 \* heartbeat: PING every peer (a dead socket is noticed, a closed peer reconnects and re-registers)
 Tick ==
   /\ quiet < K + 1
   /\ conn' = [l \in Lookupds |-> IF conn[l] = "broken" THEN "down" ELSE "up"]
   /\ reg' = [l \in Lookupds |-> IF conn[l] = "down" THEN Current ELSE reg[l]]
-  /\ quiet' = IF pending = {} THEN quiet + 1 ELSE 0
-  /\ UNCHANGED <<objs, cur, pending, ops, faults, nextId>>
+  /\ age' = [l \in Lookupds |-> IF conn[l] = "down" THEN 0
+                                 ELSE IF conn[l] = "up" /\ ~(SkipPingWhenBusy /\ busy[l]) THEN 0
+                                 ELSE IF age[l] < 3 THEN age[l] + 1 ELSE 3]
+  /\ busy' = [l \in Lookupds |-> FALSE]
+  /\ quiet' = IF pending = {} /\ \A l \in Lookupds : ~half[l] THEN quiet + 1 ELSE 0
+  /\ UNCHANGED <<objs, cur, pending, stale, half, ops, faults, nextId>>
 
 \* a lookupd restarts with empty state, or the connection drops: lookupd forgets this producer
 Fault(l) ==
@@ -98,18 +124,40 @@ Fault(l) ==
   /\ reg' = [reg EXCEPT ![l] = {}]
   /\ conn' = [conn EXCEPT ![l] = IF @ = "up" THEN "broken" ELSE @]
   /\ faults' = faults + 1 /\ quiet' = 0
-  /\ UNCHANGED <<objs, cur, pending, ops, nextId>>
+  /\ stale' = [stale EXCEPT ![l] = {}] /\ half' = [half EXCEPT ![l] = FALSE]
+  /\ UNCHANGED <<objs, cur, pending, age, busy, ops, nextId>>
+
+\* the connection to l goes dead without l noticing: l keeps what it registered; nsqd finds out at its next command
+HalfOpen(l) ==
+  /\ faults < MaxFaults /\ conn[l] = "up" /\ ~half[l]
+  /\ stale' = [stale EXCEPT ![l] = reg[l]] /\ half' = [half EXCEPT ![l] = TRUE]
+  /\ reg' = [reg EXCEPT ![l] = {}]
+  /\ conn' = [conn EXCEPT ![l] = "broken"]
+  /\ faults' = faults + 1 /\ quiet' = 0
+  /\ UNCHANGED <<objs, cur, pending, age, busy, ops, nextId>>
+
+\* l notices at last and removes what the dead connection registered
+Reap(l) ==
+  /\ half[l]
+  /\ stale' = [stale EXCEPT ![l] = {}] /\ half' = [half EXCEPT ![l] = FALSE]
+  /\ reg' = IF KeyByIdentity THEN [reg EXCEPT ![l] = {}] ELSE reg
+  /\ quiet' = 0
+  /\ UNCHANGED <<objs, cur, pending, conn, age, busy, ops, faults, nextId>>
 
 Next == \/ \E nm \in Names : Create(nm) \/ Delete(nm)
         \/ \E p \in pending : Deliver(p)
-        \/ \E l \in Lookupds : Fault(l)
+        \/ \E l \in Lookupds : Fault(l) \/ HalfOpen(l) \/ Reap(l)
         \/ Tick
 Spec == Init /\ [][Next]_vars /\ WF_vars(Tick) /\ \A p \in [obj : 1..(2 * MaxOps), n : {1, 2}] : WF_vars(Deliver(p))
 
 ---------------------------------------------------------------------------
 \* C16: once churn, faults and notifications have stopped, within K heartbeats every lookupd lists exactly the
 \* current topics and channels of this nsqd
-Converges == (quiet >= K /\ pending = {}) => \A l \in Lookupds : reg[l] = Current
+Listed(l) == reg[l] \cup stale[l]
+Converges == (quiet >= K /\ pending = {}) => \A l \in Lookupds : Listed(l) = Current
+\* ... and a connected nsqd is refreshed at the lookupd at every heartbeat, however busy it is with registrations:
+\* otherwise /lookup and /nodes stop listing it after inactive-producer-timeout
+Refreshed == \A l \in Lookupds : conn[l] = "up" => age[l] <= 1
 \* liveness form: it eventually does, and stays
-EventuallyInSync == <>[](\A l \in Lookupds : reg[l] = Current)
+EventuallyInSync == <>[](\A l \in Lookupds : Listed(l) = Current)
 =============================================================================
